@@ -2,7 +2,9 @@
   Driver/PoolD.lean — line protocol of the `pool` engine (model: BumpProof/Pool/Model.lean).
 
     pool-new …                      start of a case: the model state becomes `Pool.init`          → `ok`
-    op get <g> <createOk 0|1>       `BumpPool::get*` / `try_get*` (linearised by lock ticket)     → `arena <id> new|reused idle=<n>` | `err idle=<n>`
+    op get <g> <create 1|0|p>       `BumpPool::get*` / `try_get*` (linearised by lock ticket); IF an arena has to be constructed:
+                                    1 = it succeeds, 0 = refused (`Err`), p = the constructor panics (capacity overflow,
+                                    the mutex gets poisoned)                                      → `arena <id> new|reused idle=<n>` | `err idle=<n>` | `panic idle=<n>`
     op put <g>                      drop of guard g                                               → `done idle=<n>`
     op forget <g>                   `mem::forget` of guard g                                      → `done`
     op alloc <g> <tag>              an allocation through guard g                                 → `arena <id>`
@@ -11,6 +13,7 @@
     q contents                      tags of the blocks of every idle arena, in `bumps()` order    → `contents <id>:[t,t,…] …`
     q counters                      per idle arena: resets/rewinds/drops applied                  → `counters <id>:r/w/d …`
     q live                          number of live guards + forgotten guards, arenas created     → `live <n> created <m>`
+    q poisoned                      did a `get*` panic inside the critical section                → `poisoned 0|1`
 
   `idle=<n>` is the number of idle arenas at the moment the lock was taken (before the operation),
   the implementation reports the same number from inside its critical section.
@@ -33,7 +36,10 @@ def errName : Err → String
 
 def parseStep (toks : List String) : Option Step :=
   match toks with
-  | ["get", g, ok] => do pure (.get (← g.toNat?) ((← ok.toNat?) != 0))
+  | ["get", g, c] => do
+    let c ← match c with
+      | "1" => some Create.ok | "0" => some Create.fail | "p" => some Create.panic | _ => none
+    pure (.get (← g.toNat?) c)
   | ["put", g] => do pure (.put (← g.toNat?))
   | ["forget", g] => do pure (.forget (← g.toNat?))
   | ["alloc", g, t] => do pure (.alloc (← g.toNat?) (← t.toNat?))
@@ -47,6 +53,7 @@ def joinNats (l : List Nat) (sep : String) : String := sep.intercalate (l.map to
 def render (before : Pool.State) (st : Step) (o : Out) : String :=
   match st, o with
   | .get _ _, .got a fresh => s!"arena {a} {if fresh then "new" else "reused"} idle={before.idle.length}"
+  | .get _ _, .panicked => s!"panic idle={before.idle.length}"
   | .get _ _, _ => s!"err idle={before.idle.length}"
   | .put _, _ => s!"done idle={before.idle.length}"
   | .forget _, _ => "done"
@@ -72,6 +79,7 @@ def handle (d : DState) (toks : List String) : DState × String :=
   | ["q", "counters"] =>
     (d, "counters " ++ " ".intercalate (d.s.idle.reverse.map fun a =>
       let x := d.s.arenas a; s!"{a}:{x.resets}/{x.rewinds}/{x.drops}"))
+  | ["q", "poisoned"] => (d, s!"poisoned {if d.s.poisoned then 1 else 0}")
   | ["q", "live"] => (d, s!"live {d.s.owned.length + d.s.leaked.length} created {d.s.created}")
   | _ => (d, "bad-line")
 
